@@ -331,7 +331,8 @@ func runC08(c *Ctx) {
 		}
 	}
 	// httpDir: names with percent escapes (an escaped dot or separator stays what it is: a name byte)
-	toks := []string{"a", ".", "/", "%2e", "%2f", "..", "%2E%2E", "%"}
+	// and with backslashes, which are name bytes as well here (not separators)
+	toks := []string{"a", ".", "/", "%2e", "%2f", "..", "%2E%2E", "%", "\\"}
 	var rec func(prefix string, d int)
 	rec = func(prefix string, d int) {
 		if prefix != "" {
@@ -344,7 +345,7 @@ func runC08(c *Ctx) {
 			return
 		}
 		for _, t := range toks {
-			if strings.Contains(t, "%") || strings.Contains(prefix, "%") || d == 4 {
+			if strings.ContainsAny(t, "%\\") || strings.ContainsAny(prefix, "%\\") || d == 4 {
 				rec(prefix+t, d-1)
 			}
 		}
